@@ -37,6 +37,65 @@ pub struct Ctx {
     pub work: PathBuf,
     pub out: Box<dyn Write>,
     pub no_openat2: bool,
+    /// run the library calls (and the kernel reference calls) as uid/gid 65534 on trees owned by that user, some of
+    /// whose directories and files have restricted modes; everything the harness does around them stays privileged
+    pub unpriv: bool,
+}
+
+pub const NOBODY: u32 = 65534;
+
+/// drop the effective ids (keeping the saved ones) / take them back
+pub fn drop_priv(on: bool) {
+    if on {
+        unsafe {
+            assert_eq!(libc::setegid(NOBODY), 0);
+            assert_eq!(libc::seteuid(NOBODY), 0);
+            // a change of the effective uid makes the process non-dumpable, and /proc/self/fd unreadable with it
+            libc::prctl(libc::PR_SET_DUMPABLE, 1, 0, 0, 0);
+        }
+    }
+}
+
+pub fn restore_priv(on: bool) {
+    if on {
+        unsafe {
+            assert_eq!(libc::seteuid(0), 0);
+            assert_eq!(libc::setegid(0), 0);
+            libc::prctl(libc::PR_SET_DUMPABLE, 1, 0, 0, 0);
+        }
+    }
+}
+
+/// hand the tree over to the unprivileged user and take permissions away here and there
+fn prepare_unpriv_tree(rootdir: &std::path::Path, spec: &TreeSpec, seed: u64) {
+    use std::os::unix::fs::PermissionsExt;
+    let chown = |p: &std::path::Path| {
+        let c = std::ffi::CString::new(p.as_os_str().as_bytes()).unwrap();
+        unsafe { libc::lchown(c.as_ptr(), NOBODY, NOBODY) };
+    };
+    chown(rootdir);
+    let _ = fs::set_permissions(rootdir, fs::Permissions::from_mode(0o755));
+    if let Some(top) = rootdir.parent() {
+        // the directory that holds the root must be searchable
+        let _ = fs::set_permissions(top, fs::Permissions::from_mode(0o755));
+    }
+    for e in &spec.entries {
+        chown(&rootdir.join(OsStr::from_bytes(&e.path)));
+    }
+    let mut rng = rng::Rng::new(seed ^ 0x5eed_0bad);
+    if rng.chance(1, 2) {
+        // deepest first, so that a parent's restriction does not hide the children from chmod (we are root anyway)
+        for _ in 0..(1 + rng.below(2)) {
+            let e = rng.pick(&spec.entries);
+            let p = rootdir.join(OsStr::from_bytes(&e.path));
+            let mode = match e.kind {
+                tree::Kind::Dir => *rng.pick(&[0o000, 0o300, 0o500, 0o100, 0o600, 0o400, 0o200]),
+                tree::Kind::Link(_) => continue,
+                _ => *rng.pick(&[0o000, 0o200, 0o400]),
+            };
+            let _ = fs::set_permissions(&p, fs::Permissions::from_mode(mode));
+        }
+    }
 }
 
 fn arg_val(args: &[String], name: &str) -> Option<String> {
@@ -131,13 +190,17 @@ fn run_root_case(
     rflags: ResolverFlags,
 ) {
     let (top, rootdir) = setup_case_dir(ctx, "case", spec);
+    let unpriv = ctx.unpriv;
+    if unpriv {
+        prepare_unpriv_tree(&rootdir, spec, seed);
+    }
     let labels = Labels::of_tree(spec, &rootdir);
     let mut root = Root::open(&rootdir).expect("open root");
     root.verif_set_emulated(emulated);
     root.set_resolver_flags(rflags);
 
     let mut s = String::new();
-    s.push_str(&format!("case {id}\nmeta seed={seed} suite=root\n"));
+    s.push_str(&format!("case {id}\nmeta seed={seed} suite=root{}\n", if unpriv { " unpriv=1" } else { "" }));
     s.push_str(&format!("tree {}\n", spec.entries.len()));
     s.push_str(&spec.lines());
     s.push_str(&op.line());
@@ -154,12 +217,15 @@ fn run_root_case(
         }
     }
 
-    // independent kernel oracle first (lookups do not change the tree)
+    // independent kernel oracle first (lookups do not change the tree), with the caller's privileges
+    drop_priv(unpriv);
     let kern = ops::kernel_line(&root, op, rflags, &labels);
     let kernb = ops::kernel_beneath_line(&root, op, rflags, &labels);
+    restore_priv(unpriv);
 
     let before_snap = tree::snapshot(&top);
     let pre_effect = if op.is_mutating() { Some(effect::prepare(&top, &root, op, &before_snap)) } else { None };
+    drop_priv(unpriv);
     let (outcome, log, pre_handle, fdt) = match op {
         Op::Reopen { path, nofollow, flags } => {
             let h = if *nofollow {
@@ -168,7 +234,10 @@ fn run_root_case(
                 root.resolve(ops::p(path))
             };
             match h {
-                Err(_) => return, // nothing to reopen; not a case
+                Err(_) => {
+                    restore_priv(unpriv);
+                    return; // nothing to reopen; not a case
+                }
                 Ok(h) => {
                     s.push_str(&format!(
                         "handle {}\n",
@@ -205,6 +274,7 @@ fn run_root_case(
             (outcome, log, None, fdt)
         }
     };
+    restore_priv(unpriv);
     drop(pre_handle);
     let after_snap = tree::snapshot(&top);
 
@@ -398,6 +468,7 @@ fn main() {
         work: work.clone(),
         out,
         no_openat2,
+        unpriv: args.iter().any(|a| a == "--unpriv"),
     };
     PSL_AT_START.store(protected_symlinks(), Ordering::SeqCst);
     if cmd == "fd-init" {
